@@ -152,6 +152,15 @@ func (p *pkg) scanFiles(important map[string]bool) []*ast.File {
 			scan = append(scan, f)
 		}
 	}
+	// `const true = false`, `func len(..)`, `type uint64 ..` at package level are legal
+	// Go and would silently change the meaning of every translated routine
+	for _, f := range append(append([]*ast.File{}, scan...), skipped...) {
+		for _, n := range topNames(f) {
+			if predeclared[n] {
+				p.failAt(f.Name, "the predeclared identifier %s is redeclared at package level in this file", n)
+			}
+		}
+	}
 	declared := map[string]bool{}
 	for _, f := range scan {
 		for _, n := range topNames(f) {
@@ -166,6 +175,16 @@ func (p *pkg) scanFiles(important map[string]bool) []*ast.File {
 		}
 	}
 	return scan
+}
+
+var predeclared = map[string]bool{}
+
+func init() {
+	for _, n := range strings.Fields(`bool byte complex64 complex128 error float32 float64 int int8 int16 int32 int64
+		rune string uint uint8 uint16 uint32 uint64 uintptr any comparable true false iota nil
+		append cap clear close complex copy delete imag len make max min new panic print println real recover`) {
+		predeclared[n] = true
+	}
 }
 
 // trustedImports: the library packages whose calls the translators model.
